@@ -13,7 +13,7 @@ import (
 // stored action with an arbitrary timestamp: older -> refused and nothing changes; equal or newer ->
 // replaces it, relayed once to the others, handed to newcomers.
 func VerifC16Action() {
-	s := newStepWorld(stepShape{mods: vModVikja | vModOdal, preset: verifnd.Choice(2)})
+	s := newStepWorld(stepShape{mods: vModVikja | vModOdal, preset: verifnd.Choice(2), prior: verifnd.Bool()})
 	if s.hasAction {
 		assumeValidTS(s.actSec, s.actNanos)
 	}
@@ -89,7 +89,7 @@ func VerifC16Action() {
 
 // VerifC16Asset: an asset add by any member for an arbitrary entity id.
 func VerifC16Asset() {
-	s := newStepWorld(stepShape{mods: vModVikja | vModOdal, preset: verifnd.Choice(2)})
+	s := newStepWorld(stepShape{mods: vModVikja | vModOdal, preset: verifnd.Choice(2), prior: verifnd.Bool()})
 	p1, view := s.probe(s.a0.sid)
 	s.w.drainAll()
 	var oldID uint32
